@@ -2230,6 +2230,89 @@ def replay_var_empty(a):
             "note": "; ".join(t["clause"] for t in tried if "problem" in t) or None}
 
 
+def empty_on_expr_condition(a):
+    """C15 (`the only documented exception is the emptiness test on a bare variable, which tests the result set`) / C01: WHEN unary_operation
+    takes the result-set path for `empty`: exactly for a query whose last part is a filter / key filter, or that consists of ONE part which is
+    a variable. Query length, kind of the last part and is_variable are symbolic."""
+    CMPO = enum_variants(a.src, "rules/values.rs", "CmpOperator")
+    QP = enum_variants(a.src, "rules/exprs.rs", "QueryPart")
+    saved = a.enums
+    a.enums = dict(a.enums, CmpOperator=CMPO)
+    isvar = {}
+
+    def m_isvar(ex, av):
+        k = str(av[0])
+        if k not in isvar:
+            isvar[k] = ex.havoc("bool")
+        return isvar[k]
+
+    def prep(ex):
+        return {"_2": ("tuple", [("enum", "CmpOperator", str(CMPO.index("Empty")), {}), ex.havoc("bool")])}
+    try:
+        ex = a.exec(r"(?:rules::eval::)?unary_operation",
+                    {"query": m_result_opq, "next": mirexec.m_iter_next, "into_iter": mirexec.m_new_iter, "iter": mirexec.m_new_iter,
+                     "is_variable": m_isvar, "is_null": lambda ex, av: ex.havoc("bool"), "is_empty": mirexec.m_is_empty,
+                     "len": lambda ex, av: ("int", ex.len_of(av[0])), "start_record": mirexec.m_result_unit, "end_record": mirexec.m_result_unit,
+                     "with_capacity": lambda ex, av: ex.opq(), "clone": mirexec.m_identity,
+                     "eq": lambda ex, av: ("bool", f"(= {av[0][2]} {av[1][2]})") if len(av) == 2 and av[0][0] == "enum" and av[1][0] == "enum" else ex.havoc("bool"),
+                     "branch": mirexec.m_try_branch, "from_residual": mirexec.m_from_residual},
+                    log=("index", "is_variable"), unroll=1, max_paths=60000, prep=prep, deepen=False)
+    finally:
+        a.enums = saved
+    a.fns.append("rules::eval::unary_operation (when `empty` tests the result set)")
+    q = ex.arg_env["_1"]
+    n = ex.len_of(q)
+    bad, npaths = [], 0
+    for p in ex.paths:
+        qs = calls(p, "query")
+        if not qs or f"(= {qs[0][3][2]} 0)" not in p.pc:
+            continue                                # the query itself failed
+        # the last part: the element read at index len-1 (bounds-checked slice index: an assert event; the projection key holds the term)
+        lasts = [v for (b, k), v in ex.proj.items() if b == q[1] and isinstance(k, str) and k.startswith("[") and v[0] == "opaque"]
+        if len(lasts) != 1:
+            bad.append(pc_term(p.pc))
+            continue
+        last = lasts[0]
+        key = [k for (b, k), v in ex.proj.items() if b == q[1] and v == last][0]
+        idx_ok = key.replace(" ", "") in (f"[(-{n}1)]", f"[(+{n}(-1))]") or re.fullmatch(r"\[\(- " + re.escape(n) + r" 1\)\]", key) is not None
+        d = disc(ex, last)
+        iv = isvar.get(str(last))
+        special = bool(calls(p, "start_record"))
+        npaths += 1
+        cond = (f"(or (= {d} {QP.index('Filter')}) (= {d} {QP.index('MapKeyFilter')}) "
+                + (f"(and {iv[1]} (= {n} 1))" if iv is not None else "false") + ")")
+        good = cond if special else f"(not {cond})"
+        bad.append(f"(and {pc_term(p.pc)} (not {good if idx_ok else 'false'}))")
+    c = a.discharge("unary_operation/empty-tests-the-result-set-only-for", ex, bad,
+                    f"unary_operation with the operator `empty` ({npaths} paths past the query; query length, kind of its last part and is_variable "
+                    "symbolic): the result-set reading of `empty` is taken exactly when the LAST part is a filter / key filter, or the query is ONE part "
+                    "and that part is a variable; every other query goes through the per-value `empty`")
+    if c:
+        c["replay"] = replay_empty_through_variable_key(a)
+        c["reproduced"] = c["replay"].get("reproduced", False)
+        a.candidates.append(c)
+
+
+def replay_empty_through_variable_key(a):
+    """`X.%k empty` must agree with `X.<key> empty` written in place (k a literal key name), for empty / non-empty / missing values;
+    the bare-variable form `%v empty` keeps its documented result-set meaning"""
+    exe = a.cli()
+    if not exe:
+        return {"reproduced": False, "note": "native build failed"}
+    data = '{"R": {"e": {}, "l": [], "s": "", "f": {"x": 1}, "g": [1], "t": "x"}, "z": []}\n'
+    prefix = "".join(f"let k{n} = '{n}'\n" for n in "elsfgt") + "let kq = 'q'\nlet all = R.*\nlet none = R.q\n"
+    cases = []
+    for key, emp in (("e", True), ("l", True), ("s", True), ("f", False), ("g", False), ("t", False)):
+        for op, want_empty in (("empty", True), ("!empty", False)):
+            exp = "PASS" if emp == want_empty else "FAIL"
+            cases.append((f"R.{key} {op}", exp))
+            cases.append((f"R.%k{key} {op}", exp))
+            cases.append((f"not R.%k{key} {op}", "FAIL" if exp == "PASS" else "PASS"))
+    cases += [("R.q empty", "PASS"), ("R.%kq empty", "PASS"), ("R.q !empty", "FAIL"), ("R.%kq !empty", "FAIL"),
+              ("%none empty", "PASS"), ("%all !empty", "PASS"), ("%all empty", "FAIL")]
+    return a.replay_cases(exe, data, cases, prefix=prefix)
+
+
 def flip_queryin(a):
     """operator-level `not` on a failed query-in comparison (`q not in [..]`, `q != list`): which side the new difference
     is taken from, and when the negated outcome is Success"""
@@ -2363,12 +2446,12 @@ def gac_comparator_pair(a):
 
 
 SITES = {
-    "C01": [guard_block, type_block, binary_operation, operator_dispatch, match_value, common_operator, contained_in, eq_operation, in_operation, list_map_equality, value_partial_eq, flip_listin, unary_empty_on_expr, flip_queryin, gac_comparator_pair, clause_dispatch, function_args],
+    "C01": [guard_block, type_block, binary_operation, operator_dispatch, match_value, common_operator, contained_in, eq_operation, in_operation, list_map_equality, value_partial_eq, flip_listin, unary_empty_on_expr, flip_queryin, gac_comparator_pair, clause_dispatch, function_args, empty_on_expr_condition],
     "C02": [guard_block, type_block, record_tracker, unary_empty_on_expr, binary_records],
     "C09": [binary_records],
     "C10": [binary_records],
     "C03": [flip_closure, negated_compare_wrapper, parser_clause_wiring, flip_listin, unary_empty_on_expr, flip_queryin, gac_comparator_pair],
     "C13": [flip_closure, operator_dispatch, binary_operation, match_value, common_operator, contained_in, eq_operation, in_operation, list_map_equality, value_partial_eq, flip_listin, flip_queryin],
     "C18": [function_dispatch, elementwise, join_sequence, function_args],
-    "C15": [function_args],
+    "C15": [function_args, empty_on_expr_condition],
 }
